@@ -201,6 +201,30 @@ def _o1_o2(ctx, result, module):
                 elif low_restore is False:
                     mut = direct
             if mut is not None:
+                if first_mut is None and func.args.kwarg is not None:
+                    # O11: the entry applies exactly the caller's options - nothing is merged in
+                    kname = "π" + func.args.kwarg.arg
+                    for call in _calls(ctx, module, step, SET):
+                        expanded = step.expand(call)
+                        stars = [kw.value for kw in expanded.keywords if kw.arg is None]
+                        named = [kw.arg for kw in expanded.keywords if kw.arg is not None]
+                        texts = [U(e) for e in stars]
+                        exact = (not named and not expanded.args and len(stars) == 1
+                                 and texts[0] in (kname, f"dict({kname})", f"{kname}.copy()", "{**" + kname + "}"))
+                        if exact:
+                            result.ob("O11 global_options applies exactly the given options on entry", True,
+                                      module.loc(step.orig), texts[0])
+                        elif any(kname in t for t in texts):
+                            result.ob("O11 global_options applies exactly the given options on entry", False,
+                                      module.loc(step.orig), U(expanded)[:100])
+                            result.add(Finding(
+                                "R-OPT", module, qual, call,
+                                f"O11: on entry global_options calls '{U(call)[:90]}', which sets more than the caller's options: every "
+                                f"option that was merged in (e.g. the shipped defaults) overrides what is in force, so a nested block or "
+                                f"a block opened after set_options() silently resets the options it does not name",
+                                derivation=trace, construct="global_options: entry sets more than the given options"))
+                        else:
+                            raise AnalysisError(f"global_options: entry mutation not recognised: {U(call)[:80]}")
                 if first_mut is None:
                     first_mut = idx
                     ok = snapshot_expr is not None
@@ -1054,8 +1078,63 @@ def run_layers(ctx) -> RuleResult:
     result = RuleResult("R-OPT-LAYERS", "O6: each option key is read only by the layer it is "
                         "documented to influence; retain_* only as default of a None argument")
     _o6(ctx, result)
+    _o12(ctx, result)
     result.floor = 20
     return result
+
+
+def _o12(ctx, result) -> None:
+    """O12: an option-defaulted flag (parameter ``retain_*`` with default None) is resolved before it is used: on every
+    path, wherever the flag decides a branch its value is no longer the bare parameter that may still be None (None is
+    falsy, so an unresolved flag silently means 'False' whatever the option says - e.g. for the one caller that passes
+    the other flag explicitly)."""
+    n = 0
+    for module, qual, func in ctx.repo.analysed_functions():
+        if module.is_pyx:
+            continue
+        args = func.args
+        pos = args.posonlyargs + args.args
+        defaults = dict(zip([p.arg for p in pos][len(pos) - len(args.defaults):], args.defaults))
+        defaults.update({k.arg: d for k, d in zip(args.kwonlyargs, args.kw_defaults) if d is not None})
+        flags = [name for name, d in defaults.items() if name.startswith("retain_")
+                 and isinstance(d, ast.Constant) and d.value is None]
+        if not flags or "get_options" not in U(func):
+            continue
+        seen = set()
+        for path in ctx.paths_auto(module, func):
+            for step in path:
+                if step.kind != "assume":
+                    continue
+                test = step.node
+                while isinstance(test, ast.UnaryOp) and isinstance(test.op, ast.Not):
+                    test = test.operand
+                conjuncts = test.values if isinstance(test, ast.BoolOp) else [test]
+                for conj in conjuncts:
+                    while isinstance(conj, ast.UnaryOp) and isinstance(conj.op, ast.Not):
+                        conj = conj.operand
+                    if not isinstance(conj, ast.Name):
+                        continue
+                    value = step.expand(conj)
+                    for flag in flags:
+                        if not (isinstance(value, ast.Name) and value.id == "π" + flag):
+                            continue
+                        known = step.fact(f"π{flag} is None")
+                        key = (id(step.node), flag, known)
+                        if key in seen:
+                            continue
+                        seen.add(key)
+                        n += 1
+                        ok = known is False
+                        result.ob(f"O12 {module.name}.{qual}: '{flag}' is resolved (not None) where it decides a branch", ok,
+                                  module.loc(step.orig), " / ".join(describe_path(path))[-100:])
+                        if not ok:
+                            result.add(Finding(
+                                "R-OPT", module, qual, step.node,
+                                f"O12: '{flag}' decides '{U(step.node)[:60]}' on a path where it may still be None (its default): "
+                                f"None is falsy, so the flag means False whatever the option '{flag}' says - the default is "
+                                f"resolved from the options only on other paths (e.g. only when another flag is None too)",
+                                derivation=describe_path(path), construct=f"{qual}: {flag} used unresolved"))
+    result.info["O12_flag_tests"] = n
 
 
 def run_pairing(ctx) -> RuleResult:
